@@ -767,7 +767,7 @@ func (app *App) Use(args ...any) Router {
 	for _, prefix := range prefixes {
 		if subApp != nil {
 			app.mount(prefix, subApp)
-			return app
+			continue
 		}
 
 		app.register([]string{methodUse}, prefix, nil, handlers...)
